@@ -151,15 +151,18 @@ def shrink(case, kind):
 
 def report(ctx, case, r, label=""):
     seen = set()
+    cls = "PriorityCondition" if case["combo"].startswith("pc") else "InterruptCondition"
     for kind, detail in r.bad:
         if kind in seen:
             continue
         seen.add(kind)
+        key = f"{cls}:{kind}"
+        if any(v["key"] == key for v in ctx.violations):
+            ctx.violation(key, "", None)          # same defect class again: only counted
+            continue
         small = shrink(case, kind)
         r2 = execute(small)
         det = next((d for k, d in r2.bad if k == kind), detail)
-        ops = sorted({op[0] for op in small["env"] if op[0] != "step"})
-        key = f"{small['combo']}:{kind}:" + "+".join(ops)
         ctx.violation(key, f"{label}{kind}: {det}", small,
                       expected="the property's clause for this oracle (see theorem)", observed=det,
                       theorem=THEOREMS.get(kind, "Asynkit.C14"))
